@@ -1,8 +1,11 @@
 (** C28 — Chain holds no replayed, expired or mis-signed transactions: theorem statements. *)
 From Coq Require Import List ZArith NArith Bool.
-From C33 Require Import C28.Model C28.Spec C28.Defs C28.Proofs C28.ProofsSig C28.ProofsEx.
+From C33 Require Import C28.Model C28.Spec C28.Defs C28.Proofs C28.ProofsSig C28.ProofsEx C28.ProofsNode C28.ProofsNodeFix.
 Import ListNotations.
 Open Scope Z_scope.
+
+(** ** connections and disconnections with the mempool's answers as inputs ([run]); blocks carry
+    single transactions and groups *)
 
 Theorem C28_unique_in_window : forall c g ops, cfg_ok c -> gen_ok g -> hash_ok (ops_txs ops) ->
   spec_unique (chain (run c (init g) ops)) = true.
@@ -14,6 +17,18 @@ Theorem C28_unexpired_fee_chainid : forall c g ops, cfg_ok c -> gen_ok g -> hash
 Proof. exact checked_all. Qed.
 Print Assumptions C28_unexpired_fee_chainid.
 
+Theorem C28_group_members_unexpired : forall c g ops, cfg_ok c -> gen_ok g -> hash_ok (ops_txs ops) ->
+  forall b t, In b (chain (run c (init g) ops)) -> 0 < b_h b -> In t (b_txs b) ->
+    spec_live c (texp t) (b_h b) (b_time b) = true.
+Proof. exact members_unexpired_all. Qed.
+Print Assumptions C28_group_members_unexpired.
+
+Theorem C28_group_members_whole : forall c g ops, cfg_ok c -> gen_ok g -> hash_ok (ops_txs ops) ->
+  forall b t, In b (chain (run c (init g) ops)) -> In t (b_txs b) -> tgc t <> 0 ->
+    exists pre grp post, b_txs b = pre ++ grp ++ post /\ In t grp /\ spec_group c grp = true.
+Proof. exact members_whole_all. Qed.
+Print Assumptions C28_group_members_whole.
+
 Theorem C28_window_cache_exact : forall c g ops, cfg_ok c -> gen_ok g -> hash_ok (ops_txs ops) ->
   cache_exact c (run c (init g) ops).
 Proof. exact cache_exact_all. Qed.
@@ -24,32 +39,78 @@ Theorem C28_tx_index_exact : forall c g ops, cfg_ok c -> gen_ok g -> hash_ok (op
 Proof. exact index_exact_all. Qed.
 Print Assumptions C28_tx_index_exact.
 
-Theorem C28_all_signed_refuted : ~ all_signed_full.
+Theorem C28_all_signed_oracle_refuted : ~ all_signed_full.
 Proof. exact all_signed_refuted. Qed.
-Print Assumptions C28_all_signed_refuted.
+Print Assumptions C28_all_signed_oracle_refuted.
 
-Theorem C28_all_signed_partial : forall c g ops,
+Theorem C28_all_signed_oracle_partial : forall c g ops,
   gen_ok g -> self_signed ops = true -> pool_guard ops = true ->
   spec_signed (chain (run c (init g) ops)) = true.
 Proof. exact all_signed_partial. Qed.
-Print Assumptions C28_all_signed_partial.
+Print Assumptions C28_all_signed_oracle_partial.
 
-Theorem C28_chain_clean_partial : forall c g ops,
+Theorem C28_chain_clean_oracle_partial : forall c g ops,
   cfg_ok c -> gen_ok g -> hash_ok (ops_txs ops) ->
   self_signed ops = true -> pool_guard ops = true ->
   spec_chain c (chain (run c (init g) ops)) = true.
 Proof. exact chain_clean_partial. Qed.
-Print Assumptions C28_chain_clean_partial.
+Print Assumptions C28_chain_clean_oracle_partial.
 
-Theorem C28_fix_all_signed : forall c g ops,
+Theorem C28_fix_all_signed_oracle : forall c g ops,
   gen_ok g -> self_signed ops = true -> pool_verified ops = true ->
   spec_signed (chain (run_fix c (init g) ops)) = true.
 Proof. exact fix_all_signed. Qed.
+Print Assumptions C28_fix_all_signed_oracle.
+
+(** ** the node with its own mempool ([nrun]): accepted offers, removal by connected blocks and
+    by expiry, transactions of disconnected blocks coming back *)
+
+Theorem C28_node_refines : forall c nops n, n_st (nrun c n nops) = run c (n_st n) (ops_of c n nops).
+Proof. exact node_refines. Qed.
+Print Assumptions C28_node_refines.
+
+Theorem C28_node_chain_checked : forall c g nops, cfg_ok c -> gen_ok g -> hash_ok (nops_txs nops) ->
+  let l := chain (n_st (nrun c (ninit g) nops)) in
+  spec_unique l = true /\ spec_checked c l = true.
+Proof. exact node_chain_checked. Qed.
+Print Assumptions C28_node_chain_checked.
+
+Theorem C28_all_signed_refuted : ~ nall_signed_full.
+Proof. exact nall_signed_refuted. Qed.
+Print Assumptions C28_all_signed_refuted.
+
+Theorem C28_all_signed_partial : forall c g nops, gen_ok g -> fh_ok (nall_txs nops) ->
+  nself_signed nops = true -> noffers_signed nops = true -> nguard c (ninit g) nops = true ->
+  spec_signed (chain (n_st (nrun c (ninit g) nops))) = true.
+Proof. exact nall_signed_partial. Qed.
+Print Assumptions C28_all_signed_partial.
+
+Theorem C28_pool_signed_partial : forall c g nops, gen_ok g -> fh_ok (nall_txs nops) ->
+  nself_signed nops = true -> noffers_signed nops = true -> nguard c (ninit g) nops = true ->
+  forall e, In e (n_pool (nrun c (ninit g) nops)) -> forallb tsig e = true.
+Proof. exact npool_signed_partial. Qed.
+Print Assumptions C28_pool_signed_partial.
+
+Theorem C28_chain_clean_partial : forall c g nops, cfg_ok c -> gen_ok g -> hash_ok (nops_txs nops) ->
+  fh_ok (nall_txs nops) -> nself_signed nops = true -> noffers_signed nops = true ->
+  nguard c (ninit g) nops = true ->
+  spec_chain c (chain (n_st (nrun c (ninit g) nops))) = true.
+Proof. exact nchain_clean_partial. Qed.
+Print Assumptions C28_chain_clean_partial.
+
+Theorem C28_fix_all_signed : forall c g nops, gen_ok g -> fh_ok (nall_txs nops) ->
+  nself_signed nops = true -> noffers_signed nops = true ->
+  spec_signed (chain (n_st (nrun_fix c (ninit g) nops))) = true
+  /\ forall e, In e (n_pool (nrun_fix c (ninit g) nops)) -> forallb tsig e = true.
+Proof. exact nfix_all_signed. Qed.
 Print Assumptions C28_fix_all_signed.
 
-Theorem C28_hypotheses_satisfiable : cfg_ok w_cfg /\ gen_ok w_gen /\ hash_ok (ops_txs g_ops)
-  /\ self_signed g_ops = true /\ pool_guard g_ops = true.
+Theorem C28_hypotheses_satisfiable :
+  (cfg_ok w_cfg /\ gen_ok w_gen /\ hash_ok (ops_txs g_ops) /\ self_signed g_ops = true /\ pool_guard g_ops = true)
+  /\ (cfg_ok w_cfg /\ gen_ok w_gen /\ hash_ok (nops_txs gn_ops) /\ fh_ok (nall_txs gn_ops)
+      /\ nself_signed gn_ops = true /\ noffers_signed gn_ops = true /\ nguard w_cfg (ninit w_gen) gn_ops = true).
 Proof.
+  split; [|exact gn_hyps].
   destruct hyps_satisfiable as [A [B C]]. destruct guards_satisfiable as [D [E _]].
   exact (conj A (conj B (conj C (conj D E)))).
 Qed.
